@@ -65,7 +65,7 @@ def unit(model, sizes, ranks):
                     kw["tau"] = t
                     allowed |= {"t"}
                 snap = game.snapshot(teams, m)
-                ids = [[(p.__dict__["id"], p.__dict__["name"], p.__dict__["mu"], p.__dict__["sigma"]) for p in tm] for tm in teams]
+                ids = [[(p.__dict__["id"], p.__dict__["name"], p.__dict__["mu"], p.__dict__["sigma"], dict(p.__dict__)) for p in tm] for tm in teams]
                 normal_state = (S.wl["_normal"]._mu, S.wl["_normal"]._sigma)
                 nev = len(ctx.events)
                 out = _do(m, op, teams, ranks, **kw)
@@ -79,7 +79,9 @@ def unit(model, sizes, ranks):
                 for tm, told in zip(teams, ids):
                     for p, old in zip(tm, told):
                         d = p.__dict__
-                        if set(d) != {"id", "name", "mu", "sigma"} or d["id"] is not old[0] or d["name"] is not old[1]:
+                        # nothing but mu / sigma of a passed rating may be written: same attributes as before the
+                        # call, every other attribute holding the very same object
+                        if set(d) != set(old[4]) or any(d[k] is not old[4][k] for k in d if k not in ("mu", "sigma")):
                             ok = False
                         if op != "rate":
                             for k, o in (("mu", old[2]), ("sigma", old[3])):
@@ -141,6 +143,33 @@ def unit(model, sizes, ranks):
                              "replay": lambda md: {"kind": "c14_twins", "model": model, "ranks": ranks, "game": game.enc_game(md, sizes), "params": game.enc_params(md)}})
         explore(ctx, run_twins)
         recs += settle(ctx.all_obls, mode="U")
+
+    # ---- the rating objects themselves carry no history: objects that have been rated before (with other
+    # options) give what fresh objects holding the same current values give
+    if sizes in ((1, 1), (2, 1)):
+        for op in OPS:
+            for (first_kw, second_kw) in (({}, {"limit_sigma": True}), ({"limit_sigma": True}, {}), ({}, {})):
+                if op != "rate" and second_kw:
+                    continue
+                ctx = Ctx("U")
+
+                def run_oh(ctx, op=op, first_kw=first_kw, second_kw=second_kw):
+                    mA, _ = game.mk_model(ctx, S)
+                    mB, _ = game.mk_model(ctx, S)
+                    used = game.mk_teams(ctx, S, sizes)
+                    r1 = _do(mA, "rate", used, ranks, **first_kw)
+                    if r1[0] != "return":
+                        ctx.oblige(f"C14/{model}/{op}/rated-objects-behave-like-fresh-ones@{shape}", False, meta={"fn": f"{model}.{op}", "shape": shape})
+                        return
+                    fresh = [[S.rating_cls(p.mu, p.sigma) for p in t] for t in used]
+                    ra = _do(mA, op, used, ranks, **(second_kw if op == "rate" else {}))
+                    rb = _do(mB, op, fresh, ranks, **(second_kw if op == "rate" else {}))
+                    mk = lambda md: {"kind": "c14_objhist", "model": model, "op": op, "first": first_kw, "second": second_kw, "ranks": ranks,
+                                     "game": game.enc_game(md, sizes), "params": game.enc_params(md)}
+                    ctx.oblige(f"C14/{model}/{op}/rated-objects-behave-like-fresh-ones[first={first_kw or 'plain'},then={second_kw or 'plain'}]@{shape}",
+                               game.compare_outcomes(ra, rb), meta={"replay": mk, "fn": f"{model}.{op}", "shape": shape})
+                explore(ctx, run_oh)
+                recs += settle(ctx.all_obls, mode="U")
 
     # ---- history independence: any first call, then op == fresh model's op
     firsts = [("rate", None, True), ("rate", True, False), ("rate", False, False), ("predict_win", None, False)]
@@ -237,7 +266,7 @@ def _unit_anysize(model, n, ranks):
                     kw["tau"] = t
                     allowed |= {"t"}
                 snap = game.snapshot([[tm.g] for tm in teams], m)
-                ids = [(tm.g.__dict__["id"], tm.g.__dict__["name"], tm.g.__dict__["mu"], tm.g.__dict__["sigma"]) for tm in teams]
+                ids = [(tm.g.__dict__["id"], tm.g.__dict__["name"], tm.g.__dict__["mu"], tm.g.__dict__["sigma"], dict(tm.g.__dict__)) for tm in teams]
                 nev = len(ctx.events)
                 out = _do(m, op, teams, ranks, **kw)
                 tag = f"[model_limit={a},limit={b},tau={'t' if use_t else None}]" if op == "rate" else ""
@@ -251,7 +280,7 @@ def _unit_anysize(model, n, ranks):
                 ok, parts = True, []
                 for tm, old in zip(teams, ids):
                     d = tm.g.__dict__
-                    if set(d) != {"id", "name", "mu", "sigma"} or d["id"] is not old[0] or d["name"] is not old[1]:
+                    if set(d) != set(old[4]) or any(d[k] is not old[4][k] for k in d if k not in ("mu", "sigma")):
                         ok = False
                     if op != "rate":
                         for k, o in (("mu", old[2]), ("sigma", old[3])):
